@@ -237,6 +237,52 @@ func init() {
 			fail("encryptionMechanism: version table")
 		}
 		b = c13body("encryption", "standardKeyEncryption")
+		// the EncryptionInfo stream written by standardKeyEncryption: fixed fields in order, provider name, tail
+		{
+			w.WriteString("\n/-! (*encryption).standardKeyEncryption: layout of the EncryptionInfo stream -/\n")
+			i1, i2 := strings.Index(b, "var storage cfb"), strings.Index(b, "providerName :=")
+			rx := regexp.MustCompile(`storage\.writeUint(16|32|64)\(` + c13num + `\)`)
+			emit := func(name, part string, want int) {
+				ms := rx.FindAllStringSubmatch(part, -1)
+				if len(ms) != want {
+					fail("standardKeyEncryption: %s: %d fixed fields, expected %d", name, len(ms), want)
+				}
+				var xs []string
+				for _, m := range ms {
+					v, _ := c13lit(m[2])
+					sz := map[string]string{"16": "2", "32": "4", "64": "8"}[m[1]]
+					xs = append(xs, "("+sz+", "+v+")")
+				}
+				fmt.Fprintf(w, "def %s : List (Nat × Nat) := [%s]\n", name, strings.Join(xs, ", "))
+			}
+			if i1 < 0 || i2 < i1 {
+				fail("standardKeyEncryption: header statements")
+			} else {
+				emit("skeHead", b[i1:i2], 11)
+				i3 := strings.Index(b, "storage.writeStrings(providerName)")
+				i4 := strings.Index(b, "keyDataSaltValue, _ := randomBytes(")
+				if i3 < 0 || i4 < i3 {
+					fail("standardKeyEncryption: provider name / salt statements")
+				} else {
+					emit("skeMid", b[i3:i4], 2)
+				}
+				if m := regexp.MustCompile(`providerName := "([^"]*)" storage\.writeStrings\(providerName\)`).FindStringSubmatch(b); m != nil {
+					fmt.Fprintf(w, "def skeProvider : String := %s\n", leanStr(m[1]))
+				} else {
+					fail("standardKeyEncryption: providerName literal")
+				}
+			}
+			c13pat(w, "standardKeyEncryption", b, `keyDataSaltValue, _ := randomBytes\(NUM\) verifierHashInput, _ := randomBytes\(NUM\)`, 1, "skeSaltLen", "skeVerifierLen")
+			c13pat(w, "standardKeyEncryption", b, `storage\.writeBytes\(e\.SaltValue\) storage\.writeBytes\(e\.EncryptedVerifierHashInput\) storage\.writeUint32\(NUM\) storage\.writeBytes\(e\.EncryptedVerifierHashValue\)`, 1, "skeHashSize")
+			for _, pat := range []string{
+				`e.SaltValue = keyDataSaltValue e.EncryptedKeyValue, _ = standardConvertPasswdToKey( StandardEncryptionHeader{KeySize: e.KeyBits}, StandardEncryptionVerifier{Salt: e.SaltValue}, &Options{Password: password})`,
+				`verifierHashInputKey := hashing("sha1", verifierHashInput) e.EncryptedVerifierHashInput = e.encrypt(verifierHashInput) e.EncryptedVerifierHashValue = e.encrypt(verifierHashInputKey)`,
+			} {
+				if !strings.Contains(b, pat) {
+					fail("standardKeyEncryption: `%s`", pat)
+				}
+			}
+		}
 		if !strings.Contains(b, `if len(password) == 0 || len(password) > MaxFieldLength { return nil, ErrPasswordLengthInvalid }`) {
 			fail("standardKeyEncryption: password length guard")
 		}
